@@ -2,6 +2,7 @@ CONSTANTS FlawShallowListFreeze = TRUE
  FlawSharedConstants = FALSE
  FlawInPlaceSort = FALSE
  FlawAppendSharesCapacity = FALSE
+ FlawSortedAliasesOrdered = FALSE
  OnlyTargets = {}
  MaxMut = 2
  DeepVias = {"direct", "alias"}
